@@ -1,6 +1,7 @@
 """C10 - no Python-level action can panic or abort the embedding process.
 Monitor: recover() around every call in worker processes + worker exit status (abort attribution through the progress log).
 A case is never judged by what it returns - only by whether it panics / aborts the process."""
+import os
 import json, os, re, subprocess, itertools, resource
 import common, progen
 from common import rng
@@ -553,10 +554,42 @@ def run(tier, rep):
                                                                                       'got': {k: common.short(v, 1500) for k, v in g.items()}})
             else:
                 rep.violation('C10|program|panic:%s' % normmsg(msg), {'case': p, 'got': {k: common.short(v, 800) for k, v in g.items()}})
+    # ---- the same kind of steps from many goroutines at once (one context each): an abort that needs real parallelism - a table shared by all
+    # contexts that is read and written without a lock ends the process with 'fatal error: concurrent map ...', which no recover() sees
+    import c08, json as _json, subprocess as _sp, shutil as _sh
+    cprogs = {'gomod.calls': c08.gomod_calls_program(),
+              'builtin.calls': 'n = 0\nfor f in (abs, all, any, ascii, bin, bool, bytes, chr, complex, dict, divmod, enumerate, float, hash, hex, id, int, iter, len, list, max, min, oct, ord, pow, range, repr, round, set, sorted, str, sum, tuple, type, zip):\n    for k in range(6):\n        n += 1\n        a = [(), ("fresh-" + str(n),), (n,), ("a", "b"), (1.5,), ([n, "x" + str(n)],)][k]\n        try:\n            f(*a)\n        except:\n            pass\nprint(n)\n',
+              'strings': 's = set()\nd = {}\nfor i in range(400):\n    k = "key-" + str(i)\n    s.add(k)\n    d[k] = i\n    x = k.upper().lower().replace("k", "q").split("-")\nprint(len(s), len(d))\n'}
+    cd = common.scratch_dir('c10conc-')
+    try:
+        inp, outp = os.path.join(cd, 'in.json'), os.path.join(cd, 'out.json')
+        with open(inp, 'w') as f:
+            _json.dump({'programs': [{'id': 'O:' + k, 'src': v, 'solo': None} for k, v in cprogs.items()], 'shared_src': 'x = 1\n', 'shared_solo': None, 'rounds': 6 if tier == 'quick' else 60, 'goroutines': 16, 'density': 0, 'repl': False, 'nocompare': True}, f)
+        cenv = common.go_env()
+        cenv['GORACE'] = 'halt_on_error=0 log_path=%s' % os.path.join(cd, 'race')
+        try:
+            pr = _sp.run([common.build(race=True), '-mode', 'cctx', '-in', inp, '-out', outp, '-seed', str(common.seed())], env=cenv, stdout=_sp.PIPE, stderr=_sp.STDOUT, timeout=900, cwd=cd)
+            clog = pr.stdout.decode('utf-8', 'replace')
+            if os.path.exists(outp):
+                co = _json.load(open(outp))
+                rep.evaluations += co.get('runs', 0)
+                nontriv.add(('concurrent', co.get('runs', 0) > 0))
+                for m_ in co.get('panics') or []:
+                    rep.violation('C10|concurrent|panic:%s' % normmsg(m_)[:80], {'what': m_})
+                conc_runs = co.get('runs', 0)
+            else:
+                m_ = re.search(r'fatal error: ([^\n]*)', clog)
+                rep.violation('C10|concurrent|process-abort:%s' % (normmsg(m_.group(1)) if m_ else 'unknown'), {'rc': pr.returncode, 'log_tail': clog[-3000:]})
+                conc_runs = 0
+        except _sp.TimeoutExpired:
+            rep.inconc('concurrent builtin stress hit the wall-clock cap')
+            conc_runs = 0
+    finally:
+        _sh.rmtree(cd, ignore_errors=True)
     rep.nontrivial = nontriv
     rep.samples = [{'kind': c['kind'], 'callable': sig_target(c), 'receiver': c.get('recv'), 'args': (expand(c) or [[]])[min(3, len(expand(c)) - 1)], 'kw': c.get('kw')} for c in C[:6]]
     rep.rule = ('every callable in builtins (%d) and in the attribute table of the type of every universe value (bound to a receiver and unbound), every unary/binary/ternary operator entry point of the py package and %d source snippets compiled and run by the VM, '
                 'x all argument tuples of arity 0-2 over a universe of %d values (huge values only sampled in quick) and arity 3 over a %d-value sub-universe, plus keyword forms; plus generated programs (program generator; full-grammar modules of the C06 generator over a universal object); plus re-entrant callback programs: %d container operations x %d mutations of the container performed by the callback (key function, rich comparison, __hash__, __index__, __iter__, __repr__, feeding generator) x trigger position; plus directed programs: interpreter-visible hooks (sys.path, sys.modules, sys.stdout, builtins.__import__, __build_class__, print, len, ...) rebound to values of the wrong kind or deleted x the actions that consult them, blocks of every kind nested to depth 5..40 (100 in thorough) and executed (incl. handlers entered inside handlers), and unbounded / very deep recursion through every route (function, method, generator, map, sort key, __repr__, __getattr__, self-containing and deeply nested containers, deeply nested source text), one process each; '
                 'non-trivial = distinct (callable, outcome class) pairs observed' % (len(L['builtins']), len([s for s in L['snippets'] if s]), len(L['universe']), 14, len(RE_OPS), len(RE_ACTIONS)))
-    rep.extra = {'calls': ncalls, 'batches': len(C), 'batches_redone': len(redo), 'outcome_classes': dict(sorted(outcomes.items(), key=lambda kv: -kv[1])[:25]), 'programs': len(progs), 'reentrant_programs': len(reprogs), 'reentrant_outcomes': re_out, 'directed_programs': len(dprogs), 'directed_outcomes': d_out, 'universe': L['universe']}
+    rep.extra = {'calls': ncalls, 'batches': len(C), 'batches_redone': len(redo), 'outcome_classes': dict(sorted(outcomes.items(), key=lambda kv: -kv[1])[:25]), 'programs': len(progs), 'reentrant_programs': len(reprogs), 'reentrant_outcomes': re_out, 'directed_programs': len(dprogs), 'directed_outcomes': d_out, 'concurrent_program_runs_16_goroutines': conc_runs, 'universe': L['universe']}
     rep.assumptions = ['pure CPU time (e.g. sum(range(2**62))) is inconclusive; process aborts and Go panics are violations', 'workers run with GOMEMLIMIT=3GiB; cwd is a scratch directory']
